@@ -389,9 +389,11 @@ structure Fam (n : Int) (fb : List Prime) (so : Int) (pa : APrep) (B0 : Nat) (ds
     pa.roots[j].2 - pa.roots[j].1 = ((ds[j] : Nat) : Int)
   b0 : pa.factors.isEmpty = false → (pa.roots.map (·.1)).sum = (B0 : Int)
   b0' : pa.factors.isEmpty = true → B0 = if isType2 n then 1 else 0
+  ds_even : ∀ j (h : j < ds.length), ds[j] % 2 = 0
+  nf : pa.roots.length = pa.factors.length
 
 theorem rootPair_le {a i : Nat} {fp : Prime} {c inv : Nat} {pr : Nat × Nat}
-    (h : rootPair a i fp c inv = some pr) : pr.1 ≤ pr.2 := by
+    (h : rootPair a i fp c inv = some pr) : pr.1 ≤ pr.2 ∧ (pr.2 - pr.1) % 2 = 0 := by
   unfold rootPair at h
   split at h
   · cases h
@@ -403,12 +405,14 @@ theorem rootPair_le {a i : Nat} {fp : Prime} {c inv : Nat} {pr : Nat × Nat}
     · split at h
       · cases h
       · split at h
-        · injection h with h; subst h; simpa using ‹_›
+        · rename_i hle
+          injection h with h; subst h; simp only at hle ⊢; omega
         · cases h
 
 theorem rootPairs_le {f : Factors} {a : Nat} {afs : List (Nat × Prime)} :
     ∀ (l : List (Nat × Prime)) (i : Nat) (prs : List (Nat × Nat)),
-      rootPairs f a afs i l = some prs → prs.length = l.length ∧ ∀ pr ∈ prs, pr.1 ≤ pr.2 := by
+      rootPairs f a afs i l = some prs →
+        prs.length = l.length ∧ ∀ pr ∈ prs, pr.1 ≤ pr.2 ∧ (pr.2 - pr.1) % 2 = 0 := by
   intro l
   induction l with
   | nil => intro i prs h; simp [rootPairs] at h; subst h; simp
@@ -449,8 +453,8 @@ theorem prepareA_fam {f : Factors} {a : Nat} {fb : List Prime} {so : Int} {pa : 
   obtain ⟨prs, hprs, ha, ha0, ha254, hfac, hroots, _, hpps⟩ := prepareA_some h
   obtain ⟨hlen, hle⟩ := rootPairs_le _ _ _ hprs
   obtain ⟨hl, hget⟩ := allSome_getElem hpps
-  refine ⟨root0Of f.n (afsOf f a).isEmpty prs, prs.map (fun pr => pr.2 - pr.1), ⟨?_, ?_, ?_, ?_, ?_, ?_⟩,
-    ha, ha0, ha254⟩
+  refine ⟨root0Of f.n (afsOf f a).isEmpty prs, prs.map (fun pr => pr.2 - pr.1),
+    ⟨?_, ?_, ?_, ?_, ?_, ?_, ?_, ?_⟩, ha, ha0, ha254⟩
   · rw [← hl]; simp
   · intro i h1 h2
     have := hget i (by simp; exact h1) h2
@@ -460,7 +464,7 @@ theorem prepareA_fam {f : Factors} {a : Nat} {fb : List Prime} {so : Int} {pa : 
   · intro j h1 h2
     simp only [hroots, List.getElem_map]
     have hj : j < prs.length := by rw [hroots] at h1; simpa using h1
-    have := hle prs[j] (List.getElem_mem hj)
+    have := (hle prs[j] (List.getElem_mem hj)).1
     push_cast [Nat.cast_sub this]
     rfl
   · intro hne
@@ -480,11 +484,17 @@ theorem prepareA_fam {f : Factors} {a : Nat} {fb : List Prime} {so : Int} {pa : 
     unfold root0Of
     rw [hnil]
     simp
+  · intro j hj
+    have hj' : j < prs.length := by simpa using hj
+    simp only [List.getElem_map]
+    exact (hle prs[j] (List.getElem_mem hj')).2
+  · rw [hroots, hfac]; simp [hlen]
 
 /-- the invariant of the whole table: every prime of the factor base that does not divide `a2a`
 satisfies `RootInv` for the current `B` -/
 def WalkInv (n : Int) (fb : List Prime) (pa : APrep) (so : Int) (pol : Poly) : Prop :=
   pol.rs.length = fb.length ∧ pol.type2 = isType2 n ∧ pol.n = n ∧
+  (isType2 n = true → pol.b % 2 = 1) ∧
   ∀ i (h : i < fb.length) (h' : i < pol.rs.length), Nat.Prime fb[i].p → fb[i].p < 2 ^ 31 →
     a2aOf n pa.a % fb[i].p ≠ 0 → RootInv (a2aOf n pa.a) so fb[i] pol.b pol.rs[i]
 
@@ -497,13 +507,13 @@ theorem finish_walk {n : Int} {fb : List Prime} {so : Int} {pa : APrep} {B0 : Na
     {s : Sieve} {pol0 pol : Poly} (fam : Fam n fb so pa B0 ds) (hso : SoOk so)
     (hinv : WalkInv n fb pa so pol0) (h : finish s pa pol0 = some pol) :
     WalkInv n fb pa so pol := by
-  obtain ⟨hlen, ht, hn, hroot⟩ := hinv
+  obtain ⟨hlen, ht, hn, hodd, hroot⟩ := hinv
   obtain ⟨_, _, _, _, hrs, hb, _, ht', _, hn'⟩ := finish_some h
   obtain ⟨hl, hget⟩ := allSome_getElem hrs
   have hlen' : pol.rs.length = fb.length := by
     rw [← hl]; unfold finishRoots
     rw [List.length_zipWith, withIdx_length, fam.len, hlen]; simp
-  refine ⟨hlen', ht'.trans ht, hn'.trans hn, ?_⟩
+  refine ⟨hlen', ht'.trans ht, hn'.trans hn, by rw [hb]; exact hodd, ?_⟩
   intro i h1 h2 hprime hp31 hnd
   have hi0 : i < pol0.rs.length := by omega
   have hipp : i < pa.pps.length := by rw [fam.len]; exact h1
@@ -566,12 +576,12 @@ theorem first_walk {n : Int} {fb : List Prime} {mm : Nat} {pa : APrep} {B0 : Nat
     {pol : Poly} (fam : Fam n fb (mkSieve n mm).startOffset pa B0 ds) (hso : SoOk (mkSieve n mm).startOffset)
     (h : first (mkSieve n mm) pa = some pol) :
     WalkInv n fb pa (mkSieve n mm).startOffset pol ∧ pol.idx = 0 := by
-  have hinv0 : ∀ b : Int, b = (B0 : Int) →
+  have hinv0 : ∀ b : Int, b = (B0 : Int) → (isType2 n = true → b % 2 = 1) →
       WalkInv n fb pa (mkSieve n mm).startOffset
         { idx := 0, type2 := isType2 n, a := (pa.a : Int), b := b, c := 0, root := 0,
           rs := pa.pps.map firstRoots, n := n } := by
-    intro b hb
-    refine ⟨by simp [fam.len], rfl, rfl, ?_⟩
+    intro b hb hodd
+    refine ⟨by simp [fam.len], rfl, rfl, hodd, ?_⟩
     intro i h1 h2 hprime hp31 hnd
     have hipp : i < pa.pps.length := by rw [fam.len]; exact h1
     have ok := mkPP_ok hprime hnd hso (fam.pp i h1 hipp)
@@ -587,13 +597,14 @@ theorem first_walk {n : Int} {fb : List Prime} {mm : Nat} {pa : APrep} {B0 : Nat
     · cases h
     · have hB0 := fam.b0' hempty
       have key : ∀ (b c : Int) (rs : List (Nat × Nat)), b = (B0 : Int) →
+          (isType2 n = true → b % 2 = 1) →
           rs.length = pa.pps.length →
           (∀ i (h1 : i < rs.length) (h2 : i < pa.pps.length), pa.pps[i].p ≠ 2 ∨ isType2 n = false →
             rs[i] = firstRoots pa.pps[i]) →
           WalkInv n fb pa (mkSieve n mm).startOffset
             { idx := 0, type2 := isType2 n, a := 1, b := b, c := c, root := 0, rs := rs, n := n } := by
-        intro b c rs hb hl hrs
-        refine ⟨by rw [hl, fam.len], rfl, rfl, ?_⟩
+        intro b c rs hb hodd hl hrs
+        refine ⟨by rw [hl, fam.len], rfl, rfl, hodd, ?_⟩
         intro i h1 h2 hprime hp31 hnd
         have hipp : i < pa.pps.length := by rw [fam.len]; exact h1
         have ok := mkPP_ok hprime hnd hso (fam.pp i h1 hipp)
@@ -617,14 +628,14 @@ theorem first_walk {n : Int} {fb : List Prime} {mm : Nat} {pa : APrep} {B0 : Nat
         obtain ⟨hl, hr⟩ := hrs _ rfl
         have ht1 : isType2 n = false := by simpa using ‹¬isType2 n = true›
         refine ⟨?_, rfl⟩
-        have := key 0 (-(wrap256 n)) _ (by rw [hB0, ht1]; simp) hl hr
+        have := key 0 (-(wrap256 n)) _ (by rw [hB0, ht1]; simp) (by rw [ht1]; intro hh; cases hh) hl hr
         rw [ht1] at this ⊢
         exact this
       · injection h with h; subst h
         obtain ⟨hl, hr⟩ := hrs _ rfl
         have ht1 : isType2 n = true := by simpa using ‹¬¬isType2 n = true›
         refine ⟨?_, rfl⟩
-        have := key 1 ((1 - wrap256 n) / 4) _ (by rw [hB0, ht1]; simp) hl hr
+        have := key 1 ((1 - wrap256 n) / 4) _ (by rw [hB0, ht1]; simp) (fun _ => by decide) hl hr
         rw [ht1] at this ⊢
         exact this
   · rename_i hne
@@ -639,7 +650,10 @@ theorem first_walk {n : Int} {fb : List Prime} {mm : Nat} {pa : APrep} {B0 : Nat
         · cases hb
       split at h
       · cases h
-      · have hw := finish_walk fam hso (hinv0 b hbv) h
+      · rename_i hoddb
+        have hodd : isType2 n = true → b % 2 = 1 := by
+          intro ht; by_contra hc; exact hoddb ⟨ht, hc⟩
+        have hw := finish_walk fam hso (hinv0 b hbv hodd) h
         obtain ⟨_, _, _, _, _, _, hidx, _⟩ := finish_some h
         exact ⟨hw, hidx⟩
 
@@ -653,7 +667,7 @@ theorem next_walk {n : Int} {fb : List Prime} {so : Int} {pa : APrep} {B0 : Nat}
     {s : Sieve} {pol pol' : Poly} (fam : Fam n fb so pa B0 ds) (hso : SoOk so)
     (hinv : WalkInv n fb pa so pol) (h : next s pa pol = some pol') :
     WalkInv n fb pa so pol' ∧ pol'.idx = pol.idx + 1 := by
-  obtain ⟨hlen, ht, hn, hroot⟩ := hinv
+  obtain ⟨hlen, ht, hn, hodd, hroot⟩ := hinv
   unfold next at h
   dsimp only at h
   split at h
@@ -684,7 +698,11 @@ theorem next_walk {n : Int} {fb : List Prime} {so : Int} {pa : APrep} {B0 : Nat}
                 pa.pps pol.rs →
               WalkInv n fb pa so { pol with idx := pol.idx + 1, b := b, rs := rs } := by
             intro b rs up hb hrs
-            refine ⟨by rw [hrs, List.length_zipWith, fam.len, hlen]; simp, ht, hn, ?_⟩
+            have hev := fam.ds_even bit hbd
+            refine ⟨by rw [hrs, List.length_zipWith, fam.len, hlen]; simp, ht, hn, ?_, ?_⟩
+            · intro htyp
+              have := hodd htyp
+              rw [hb]; cases up <;> simp only [if_true, Bool.false_eq_true, if_false] <;> omega
             intro i h1 h2 hprime hp31 hnd
             have hipp : i < pa.pps.length := by rw [fam.len]; exact h1
             have hirs : i < pol.rs.length := by rw [hlen]; exact h1
